@@ -24,7 +24,9 @@ RULE += (
     "(well-behaved / raising), enumerated to the same lengths. 12 more scheduler scenarios put a TASK under "
     "observation whose awaited batch is completed behind the scheduler's back in the same traversal (nested "
     "sync call / item.value() / batch.flush() x 4 yield orders): computed after value(), the same outcome from "
-    "value(), value() and call, one notification."
+    "value(), value() and call, one notification. Item kind added: an item that the flush answers before the "
+    "flush body raises (its first value() is its value, not the flush error). The task scenarios also cancel "
+    "the awaited batch instead of flushing it, each with and without a second, smaller pending batch."
 )
 ASSUMPTIONS = [
     "the first error()/value() that triggers a failing lazy Future may raise or return the error; only behaviour from then on is fixed by the statement",
